@@ -2,6 +2,7 @@ import MuduoVerif.Proofs.PollerPerm
 import MuduoVerif.Proofs.PollerSkelTie
 import MuduoVerif.Proofs.PollerBound
 import MuduoVerif.Proofs.SysSkelTie
+import MuduoVerif.Proofs.LoopSkelTie
 /-!
 # C09 — the loop calls exactly the ready, subscribed channels; same under epoll and poll
 
@@ -497,5 +498,54 @@ theorem loop_descriptors_nonblocking :
       [.act (.sys "timerfd_create" "1, TFD_NONBLOCK | TFD_CLOEXEC"), .act (.assign "timerfd" "<result>"),
        .ite "timerfd < 0" [.act (.log .sysfatal)] [], .act (.ret "timerfd")] :=
   ⟨SysSkel.skeleton_createEventfd, SysSkel.skeleton_createTimerfd⟩
+
+/-- **channel_lifecycle_statement_order_tied** (T1, statement order at both ends of a channel's life).  The constructor and
+destructor of `EventLoop` (its wake-up channel), `Channel::Channel`, `Channel::~Channel` and the three forwarders
+`EventLoop::updateChannel / removeChannel / hasChannel` of /repo's current sources have the statement skeleton
+`Model/Poller.lean` / `Model/Loop.lean` assume (`Model/LoopSkelDecl.lean`; re-extracted on every run by
+`vlib/gen/loopskel.py`, proved equal in `Proofs/LoopSkelTie.lean`), and of the EXTRACTED skeletons: (e) `EventLoop::EventLoop`
+ends the process (`LOG_FATAL`) exactly when the thread already has a loop and sets the thread-local pointer exactly
+otherwise; the eventfd is created before the channel on it, and the read callback is installed BEFORE the channel is
+subscribed (`enableReading` is the last statement); `EventLoop::~EventLoop` is `disableAll` -> `remove` ->
+`::close(wakeupFd_)` -> `t_loopInThisThread = NULL` - the descriptor is closed only after the channel left the poller;
+(j) a new `Channel` has `events_ = 0`, `revents_ = 0`, `index_ = -1`, is not tied, not handling an event, not added to the
+loop (`Poller.Chan`'s defaults); `~Channel` asserts `!eventHandling_` and `!addedToLoop_` (`Poller.recreateOk`); the
+forwarders assert the owner loop and the loop thread before they reach the poller. -/
+theorem channel_lifecycle_statement_order_tied :
+    (Gen.LoopSkel.loopCtor = LoopSkel.Decl.loopCtor ∧
+     Gen.LoopSkel.loopDtor = LoopSkel.Decl.loopDtor ∧
+     Gen.LoopSkel.channelCtor = LoopSkel.Decl.channelCtor ∧
+     Gen.LoopSkel.channelDtor = LoopSkel.Decl.channelDtor ∧
+     Gen.LoopSkel.updateChannel = LoopSkel.Decl.updateChannel ∧
+     Gen.LoopSkel.removeChannel = LoopSkel.Decl.removeChannel ∧
+     Gen.LoopSkel.hasChannel = LoopSkel.Decl.hasChannel) ∧
+    -- (e) constructor
+    (LoopSkel.onlyUnder "t_loopInThisThread" (.log .fatal) Gen.LoopSkel.loopCtor = true ∧
+     LoopSkel.onlyUnless "t_loopInThisThread" (.store "t_loopInThisThread" "this") Gen.LoopSkel.loopCtor = true ∧
+     LoopSkel.inOrder [.call "createEventfd" "", .store "wakeupFd_" "<result>",
+                       .store "wakeupChannel_" "new Channel(this, wakeupFd_)",
+                       .call "wakeupChannel_.setReadCallback" "bind(&EventLoop::handleRead, this)",
+                       .call "wakeupChannel_.enableReading" ""] (LoopSkel.flat Gen.LoopSkel.loopCtor) = true ∧
+     (LoopSkel.flat Gen.LoopSkel.loopCtor).getLast? = some (.call "wakeupChannel_.enableReading" "")) ∧
+    -- (e) destructor
+    LoopSkel.flat Gen.LoopSkel.loopDtor =
+      [.call "wakeupChannel_.disableAll" "", .call "wakeupChannel_.remove" "", .sys "close" "wakeupFd_",
+       .store "t_loopInThisThread" "NULL"] ∧
+    -- (j)
+    ([.store "events_" "0", .store "revents_" "0", .store "index_" "-1", .store "tied_" "false",
+      .store "eventHandling_" "false", .store "addedToLoop_" "false"].all
+         (fun a => (LoopSkel.flat Gen.LoopSkel.channelCtor).contains a) = true ∧
+     LoopSkel.flat Gen.LoopSkel.channelDtor = [.assertion "!eventHandling_", .assertion "!addedToLoop_"]) ∧
+    (LoopSkel.inOrder [.assertion "channel.ownerLoop() == this", .call "assertInLoopThread" "",
+                       .call "poller_.updateChannel" "channel"] (LoopSkel.flat Gen.LoopSkel.updateChannel) = true ∧
+     LoopSkel.inOrder [.assertion "channel.ownerLoop() == this", .call "assertInLoopThread" "",
+                       .call "poller_.removeChannel" "channel"] (LoopSkel.flat Gen.LoopSkel.removeChannel) = true) :=
+  ⟨⟨LoopSkel.skeleton_loopCtor, LoopSkel.skeleton_loopDtor, LoopSkel.skeleton_channelCtor, LoopSkel.skeleton_channelDtor,
+    LoopSkel.skeleton_updateChannel, LoopSkel.skeleton_removeChannel, LoopSkel.skeleton_hasChannel⟩,
+   ⟨LoopSkel.loopCtor_order.1, LoopSkel.loopCtor_order.2.1, LoopSkel.loopCtor_order.2.2.1,
+    LoopSkel.loopCtor_order.2.2.2.2⟩,
+   LoopSkel.loopDtor_order.1,
+   ⟨LoopSkel.channel_ctor_dtor.1, LoopSkel.channel_ctor_dtor.2.2.2⟩,
+   ⟨LoopSkel.channel_forwarders.1, LoopSkel.channel_forwarders.2.1⟩⟩
 
 end MuduoVerif.C09
